@@ -46,6 +46,7 @@ type EModel struct {
 	counted     map[string]string // "F.Cost" -> the single call text that uses it
 	countedVars map[string][]*grl.Path
 	epochCalls  map[string]int
+	varTexts    map[string]bool // texts of all variables of the rule set (every path and every prefix of it)
 }
 
 func newEModel(sc *core.Scenario) *EModel {
@@ -60,6 +61,7 @@ func newEModel(sc *core.Scenario) *EModel {
 	}
 	em.m = &grl.Model{S: grl.NewState(sc.Facts)}
 	em.counted, em.countedVars = CountedCalls(sc.Program)
+	em.varTexts = VariableTexts(sc.Program)
 	return em
 }
 
@@ -325,6 +327,10 @@ func (em *EModel) finishFiring(r *run) {
 	if em.actFault != nil {
 		stopAfterWrites = em.actFault.w
 	}
+	var pre grl.State
+	if len(rule.Then) > 1 && em.actFault == nil {
+		pre = grl.CloneState(em.m.S) // kept to tell an incompletely applied action list from a wrong value
+	}
 	writes := 0
 	for i, a := range rule.Then {
 		if stopAfterWrites >= 0 && isWriteStmt(a) && writes == stopAfterWrites {
@@ -381,6 +387,19 @@ func (em *EModel) finishFiring(r *run) {
 			oracle = "C14.partial-effects"
 		}
 		r.violate(oracle, fmt.Sprintf("after firing %s (cycle %d) the facts differ from the model:\n%s", name, em.cycle, diffCanon(realC, modelC)))
+		if pre != nil && !em.actErrSeen {
+			// do the real facts equal the model after a strict PREFIX of the list? then the firing was not applied completely
+			pm := &grl.Model{S: pre}
+			for j, a := range rule.Then {
+				if grl.Canon(pm.S) == realC {
+					r.violate("C03.actions-not-applied-completely", fmt.Sprintf("rule %s (cycle %d): only the first %d of %d statements were applied before the engine went on: the facts equal the model after that prefix", name, em.cycle, j, len(rule.Then)))
+					break
+				}
+				if _, err := pm.Apply(a); err != nil {
+					break
+				}
+			}
+		}
 	}
 	// reach probes: condition transitions caused by this firing
 	for _, n := range em.activeNames() {
@@ -720,19 +739,15 @@ func (em *EModel) invalidate(a *grl.Action) {
 				}
 			}
 		case "forget", "changed":
-			if strings.Contains(text, a.Text) || strings.Contains(a.Text, text) {
-				em.epochCalls[key] = 0
-			}
-		case "mut":
-			// a mutator changes its receiver; the announcement that follows does the resetting,
-			// but the model is permissive and lets the mutation itself open a new epoch for
-			// calls on the same fact.
-			if a.E != nil && a.E.Path != nil {
-				for _, v := range em.countedVars[key] {
-					if v.Root == a.E.Path.Root {
-						em.epochCalls[key] = 0
-					}
+			if em.varTexts[a.Text] {
+				// the snippet names a variable of the rule set: the engine resets exactly what depends on
+				// that variable, so only calls in which it occurs as a variable (not as a mere
+				// substring such as F.I in F.IsBig(3)) start a new epoch
+				if tokenContains(text, a.Text) {
+					em.epochCalls[key] = 0
 				}
+			} else if strings.Contains(text, a.Text) || strings.Contains(a.Text, text) {
+				em.epochCalls[key] = 0 // free text: the engine matches by substring, so does the model
 			}
 		}
 	}
@@ -768,5 +783,58 @@ func (em *EModel) onMethod(r *run, fact, method string) {
 	r.res.probe("counted-call")
 	if em.epochCalls[key] > 1 {
 		r.violate("C13.recomputed", fmt.Sprintf("%s was invoked %d times within one invalidation epoch (cycle %d)", text, em.epochCalls[key], em.cycle))
+	}
+}
+
+
+// VariableTexts lists the GRL text of every variable of a rule set: each path and each prefix.
+func VariableTexts(p *grl.Program) map[string]bool {
+	out := map[string]bool{}
+	add := func(pa *grl.Path) {
+		for n := 0; n <= len(pa.Steps); n++ {
+			out[grl.PrintPath(&grl.Path{Root: pa.Root, Steps: pa.Steps[:n]})] = true
+		}
+	}
+	for _, r := range p.Rules {
+		for _, pa := range PathsIn(r.When) {
+			add(pa)
+		}
+		for _, a := range r.Then {
+			if a.Path != nil {
+				add(a.Path)
+				for _, s := range a.Path.Steps {
+					for _, pa := range PathsIn(s.Sel) {
+						add(pa)
+					}
+				}
+			}
+			for _, pa := range PathsIn(a.E) {
+				add(pa)
+			}
+		}
+	}
+	return out
+}
+
+func identChar(c byte) bool {
+	return c == '_' || (c >= '0' && c <= '9') || (c >= 'a' && c <= 'z') || (c >= 'A' && c <= 'Z')
+}
+
+// tokenContains reports whether x occurs in t as a variable: not preceded by an identifier
+// character or a dot, not followed by an identifier character.
+func tokenContains(t, x string) bool {
+	for from := 0; ; {
+		i := strings.Index(t[from:], x)
+		if i < 0 {
+			return false
+		}
+		i += from
+		beforeOK := i == 0 || !(identChar(t[i-1]) || t[i-1] == '.')
+		j := i + len(x)
+		afterOK := j >= len(t) || !identChar(t[j])
+		if beforeOK && afterOK {
+			return true
+		}
+		from = i + 1
 	}
 }
